@@ -411,8 +411,33 @@ def binio_cells(tier):
     return cells
 
 
+READ_CALLEES = ["read_io_header", "read_io_footer", "read_binary_u32", "read_binary_u64", "read_binary_f32", "read_binary_f64"]
+WRITE_CALLEES = ["write_io_header", "write_io_footer"]
+
+
+def array_io_cells(tier, parts):
+    cells = []
+    combos = [(1, "float"), (3, "float"), (3, "double")] if tier == "quick" else [(1, "float"), (1, "double"), (2, "float"), (3, "float"), (3, "double"), (4, "double")]
+    for m, t in combos:
+        d = {"DIMS_OUT": m, "OUT_SCALAR_T": t}
+        if "read" in parts:
+            for fl in ("debug", "ndebug"):
+                cells.append(Cell("io.array.read.M%d.%s.%s" % (m, t, fl), "array_io", "h_array_read_binary", defines=d, flavour=fl,
+                                  enforce="array_read_binary", replace=READ_CALLEES, loop_contracts=True,
+                                  unwindset=["array_read_binary.0:%d" % (m + 1)], object_bits=12, backends=(("sat", 900),), split=8,
+                                  closes_loops="element loop: loop contract with ghost element index, symbolic count up to 2^32; component loop: unwinding to M",
+                                  replay=None))
+        if "write" in parts:
+            cells.append(Cell("io.array.write.M%d.%s" % (m, t), "array_io", "h_array_write_binary", defines=d,
+                              enforce="array_write_binary", replace=WRITE_CALLEES, loop_contracts=True,
+                              unwindset=["array_write_binary.0:%d" % (m + 1)], object_bits=12, backends=(("sat", 900),), split=8,
+                              closes_loops="element loop: loop contract with ghost element index, symbolic count up to 2^32; component loop: unwinding to M",
+                              replay=None))
+    return cells
+
+
 def cells_C08(tier, consts):
-    return binio_cells(tier)
+    return binio_cells(tier) + array_io_cells(tier, ["read"])
 
 
 PROPS["C08"] = {
